@@ -5,8 +5,11 @@ import (
 	"errors"
 	"fmt"
 	"io"
+	"os"
+	"strconv"
 	"strings"
 	"syscall"
+	"unsafe"
 
 	libaudit "github.com/elastic/go-libaudit/v2"
 
@@ -111,7 +114,7 @@ func setters() []setter {
 			return 0
 		}, "bool"},
 		{"SetImmutable", maskEnabled, offEnabled, func(c *libaudit.AuditClient, v uint32, wm libaudit.WaitMode) error { return c.SetImmutable(wm) }, func(uint32) uint32 { return 2 }, "none"},
-		{"SetPID", maskPID, offPID, func(c *libaudit.AuditClient, v uint32, wm libaudit.WaitMode) error { return c.SetPID(wm) }, func(uint32) uint32 { return uint32(syscall.Getpid()) }, "none"},
+		{"SetPID", maskPID, offPID, func(c *libaudit.AuditClient, v uint32, wm libaudit.WaitMode) error { return c.SetPID(wm) }, func(uint32) uint32 { return identityPid }, "none"},
 	}
 }
 
@@ -142,6 +145,35 @@ func valueDomain(tier string) []uint32 {
 	return out
 }
 
+// identityPid: the pid the process has to itself under the identity variant in force (what SetPID must send).
+var identityPid = uint32(syscall.Getpid())
+
+// procSelf renders /proc/self/status and /proc/self/stat the way the kernel shows them to a process whose pid (in its
+// own namespace) is pid and which outer namespaces know by the other ids (outermost first, own last).
+func procSelf(pid int, ns []int) map[string][]byte {
+	real, _ := os.ReadFile("/proc/self/status")
+	var out []string
+	nsline := "NSpid:"
+	for _, id := range ns {
+		nsline += "\t" + strconv.Itoa(id)
+	}
+	seen := false
+	for _, l := range strings.Split(string(real), "\n") {
+		switch {
+		case strings.HasPrefix(l, "Pid:") || strings.HasPrefix(l, "Tgid:"):
+			l = l[:strings.Index(l, ":")+1] + "\t" + strconv.Itoa(pid)
+		case strings.HasPrefix(l, "NSpid:") || strings.HasPrefix(l, "NStgid:"):
+			l = strings.Replace(nsline, "NSpid", l[:strings.Index(l, ":")], 1)
+			seen = true
+		}
+		out = append(out, l)
+	}
+	if !seen {
+		out = append(out, nsline)
+	}
+	return map[string][]byte{"/proc/self/status": []byte(strings.Join(out, "\n")), "/proc/self/stat": []byte(fmt.Sprintf("%d (audit) S 0 %d %d 0 -1 4194560 0 0 0 0 0 0 0 0 20 0 1 0 100 0 0\n", pid, pid, pid))}
+}
+
 func checkC16(tier string) int {
 	run := ev.Begin("C16", tier, "exploration")
 	var evals, nontrivial int64
@@ -156,7 +188,7 @@ func checkC16(tier string) int {
 		case "bool":
 			vals = []uint32{0, 1}
 		case "none":
-			vals = []uint32{0}
+			vals = []uint32{0, 0, 0, 0, 0, 0} // one evaluation per identity variant below
 		}
 		for _, wm := range []libaudit.WaitMode{libaudit.WaitForReply, libaudit.NoWait} {
 			for vi, v := range vals {
@@ -165,11 +197,24 @@ func checkC16(tier string) int {
 				c := &libaudit.AuditClient{Netlink: sim}
 				// who the process is does not decide what is sent (the kernel decides what is allowed): every third
 				// value under another identity - not root, another pid
-				switch vi % 3 {
+				identityPid = uint32(syscall.Getpid())
+				switch vi % 6 {
 				case 1:
 					vos.Install(&vos.Env{Uid: vos.Int(1000), Euid: vos.Int(1000), Gid: vos.Int(1000), Egid: vos.Int(1000)})
 				case 2:
 					vos.Install(&vos.Env{Uid: vos.Int(0), Euid: vos.Int(1000), Pid: vos.Int(1), Ppid: vos.Int(0)})
+					identityPid = 1
+				case 3:
+					// a process inside a nested PID namespace (a container): it is pid 1 to itself and to the kernel interface
+					// it talks to, /proc/self/status also shows the ids the outer namespaces know it by
+					vos.Install(&vos.Env{Pid: vos.Int(1), Ppid: vos.Int(0), Files: procSelf(1, []int{24601, 1})})
+					identityPid = 1
+				case 4:
+					vos.Install(&vos.Env{Pid: vos.Int(77), Ppid: vos.Int(1), Files: procSelf(77, []int{70001, 3001, 77})})
+					identityPid = 77
+				case 5:
+					// /proc is not mounted
+					vos.Install(&vos.Env{Files: map[string][]byte{"/proc/self/status": nil, "/proc/self/stat": nil}})
 				}
 				err := st.call(c, v, wm)
 				vos.Uninstall()
@@ -570,11 +615,22 @@ func checkC16(tier string) int {
 					content[i] = byte(0x80 ^ i*7)
 				}
 			}
-			var results [5]libaudit.AuditStatus
-			var errs [5]error
-			for place := 0; place < 5; place++ {
+			var results [6]libaudit.AuditStatus
+			var errs [6]error
+			nPlace := 5
+			var inPlace *libaudit.AuditStatus
+			if n >= int(unsafe.Sizeof(libaudit.AuditStatus{})) {
+				nPlace = 6 // also decoded IN PLACE: the caller read the datagram straight into the struct's own memory
+			}
+			for place := 0; place < nPlace; place++ {
 				var buf []byte
 				switch place {
+				case 5:
+					arr := make([]uint32, (n+3)/4+4)
+					raw := unsafe.Slice((*byte)(unsafe.Pointer(&arr[0])), n)
+					copy(raw, content)
+					buf = raw
+					inPlace = (*libaudit.AuditStatus)(unsafe.Pointer(&arr[0]))
 				case 3:
 					// last byte on the last byte of a page, the next page inaccessible
 					buf = guardRegion().AtEnd(content)
@@ -598,7 +654,11 @@ func checkC16(tier string) int {
 					buf = big[32 : 32+n]
 				}
 				results[place] = libaudit.AuditStatus{Mask: 0xDEAD, Enabled: 0xDEAD, Failure: 0xDEAD, PID: 0xDEAD, RateLimit: 0xDEAD, BacklogLimit: 0xDEAD, Lost: 0xDEAD, Backlog: 0xDEAD, FeatureBitmap: 0xDEAD, BacklogWaitTime: 0xDEAD, BacklogWaitTimeActual: 0xDEAD}
-				if r := guard.Call(func() { errs[place] = results[place].FromWireFormat(buf) }); r != nil {
+				target := &results[place]
+				if place == 5 {
+					target = inPlace
+				}
+				if r := guard.Call(func() { errs[place] = target.FromWireFormat(buf) }); r != nil {
 					errs[place] = fmt.Errorf("panic: %v", r)
 					if place >= 3 {
 						rep("fromwire-reads-outside", "FromWireFormat on a %d-byte buffer placed against an inaccessible page (placement %d) faulted: it touches memory outside the buffer: %v", n, place, r)
@@ -632,7 +692,10 @@ func checkC16(tier string) int {
 					want[i] = binary.LittleEndian.Uint32(b[:])
 				}
 			}
-			for place := 0; place < 5; place++ {
+			if nPlace == 6 {
+				results[5] = *inPlace
+			}
+			for place := 0; place < nPlace; place++ {
 				st := results[place]
 				got := [11]uint32{uint32(st.Mask), st.Enabled, st.Failure, st.PID, st.RateLimit, st.BacklogLimit, st.Lost, st.Backlog, st.FeatureBitmap, st.BacklogWaitTime, st.BacklogWaitTimeActual}
 				if got != want {
